@@ -85,6 +85,7 @@ impl Hist {
 
 fn starve(p: &Params, seed: u64) -> HistResult {
     let mut h = Hist::new(seed, p.trace);
+    h.w.armed.set(crate::sim::prop_tag(p.prop));
     let w = h.w.clone();
     let kinds: &[Kind] = if p.small {
         &[Kind::Fu, Kind::Fo, Kind::Fub, Kind::MergeB, Kind::Fu, Kind::Fo]
@@ -313,6 +314,7 @@ fn construct_with_ids(h: &mut Hist, kind: Kind, ids: &[u32]) {
 
 fn budget(p: &Params, seed: u64) -> HistResult {
     let mut h = Hist::new(seed, p.trace);
+    h.w.armed.set(crate::sim::prop_tag(p.prop));
     let w = h.w.clone();
     let kind = p.kind.unwrap_or_else(|| *h.rng.pick(&[Kind::Fub, Kind::Fub, Kind::Fu, Kind::Fob, Kind::Fo, Kind::MergeB]));
     let n = if p.small { h.rng.range(62, 70) } else { *h.rng.pick(&[62usize, 63, 100, 122, 123, 124, 200, 300]) };
@@ -367,6 +369,7 @@ fn budget(p: &Params, seed: u64) -> HistResult {
 
 fn quiet_stale(p: &Params, seed: u64) -> HistResult {
     let mut h = Hist::new(seed, p.trace);
+    h.w.armed.set(crate::sim::prop_tag(p.prop));
     let w = h.w.clone();
     let kind = p.kind.unwrap_or_else(|| *h.rng.pick(&[Kind::Fub, Kind::Fub, Kind::Fob, Kind::Fu, Kind::Fo, Kind::MergeB, Kind::BufU]));
     let cap = if p.small { h.rng.range(3, 8) } else { *h.rng.pick(&[3usize, 8, 33, 62, 63, 100, 123, 124, 200, 257]) };
@@ -458,6 +461,7 @@ fn quiet_stale(p: &Params, seed: u64) -> HistResult {
 /// still queued, then nobody wakes anything any more: the collection must fall silent.
 fn quiet_budget(p: &Params, seed: u64) -> HistResult {
     let mut h = Hist::new(seed, p.trace);
+    h.w.armed.set(crate::sim::prop_tag(p.prop));
     let w = h.w.clone();
     let kind = p.kind.unwrap_or_else(|| *h.rng.pick(&[Kind::Fub, Kind::Fub, Kind::Fob, Kind::Fu, Kind::Fo, Kind::MergeB]));
     let n = if p.small { h.rng.range(62, 66) } else { *h.rng.pick(&[62usize, 62, 63, 64, 100, 123, 124, 130, 200]) };
@@ -525,6 +529,7 @@ fn quiet_budget(p: &Params, seed: u64) -> HistResult {
 #[allow(clippy::too_many_arguments)]
 fn oscillate_once(p: &Params, seed: u64, kind: Kind, ctor_cap: usize, peak: usize, cycles: usize, period: usize, partial: usize, front_every: usize) -> (Hist, u64) {
     let mut h = Hist::new(seed, p.trace);
+    h.w.armed.set(crate::sim::prop_tag(p.prop));
     let w = h.w.clone();
     w.fair_enabled.set(false);
     let ctor = if ctor_cap == 0 { Ctor::New } else { Ctor::WithCap };
@@ -655,6 +660,7 @@ fn oscillate(p: &Params, seed: u64) -> HistResult {
 
 fn head_of_line(p: &Params, seed: u64) -> HistResult {
     let mut h = Hist::new(seed, p.trace);
+    h.w.armed.set(crate::sim::prop_tag(p.prop));
     let w = h.w.clone();
     let kind = p.kind.unwrap_or_else(|| *h.rng.pick(&[Kind::BufO, Kind::TryBufO]));
     let n = if p.small { h.rng.range(1, 4) } else { *h.rng.pick(&[1usize, 2, 3, 4, 8, 33, 64]) };
@@ -717,6 +723,7 @@ fn head_of_line(p: &Params, seed: u64) -> HistResult {
 fn wrap(p: &Params, seed: u64) -> HistResult {
     const MSB: usize = 1 << (usize::BITS - 1);
     let mut h = Hist::new(seed, p.trace);
+    h.w.armed.set(crate::sim::prop_tag(p.prop));
     let w = h.w.clone();
     let kind = p.kind.unwrap_or_else(|| *h.rng.pick(&[Kind::Fob, Kind::Fo]));
     let cap = if p.small { h.rng.range(2, 5) } else { h.rng.range(2, 40) };
